@@ -31,6 +31,40 @@ CLAIMED = {
          "limits are cited, not decided. Finding E5 (NaN at low temperature) was repaired in /repo (fix: commit) and is checked unrestricted.",
     technique="deductive verification: symbolic-execution VC generation with loop invariants + z3/sympy; special-value model for finiteness",
     design="DESIGN.md section 5 C10"),
+
+ "C02": dict(
+    text="c/dynmat.c under contract, function by function (callers use the callees' contracts): get_dm (phase average over the shortest-vector images, loop "
+         "invariant over recursive-sum spec functions), get_dynmat_ij (partial Fourier sum over the supercell atoms that map to the primitive atom), make_Hermitian "
+         "(two nested loops, quantified invariant; result (M+M^H)/2 and Hermitian), dym_get_dynamical_matrix_at_q (both the ij-parallel and the nested branch): the "
+         "output equals herm(Dspec) with Dspec the multiplicity-averaged lattice Fourier sum of the property statement; Wang NAC: dym_get_charge_sum, get_q_cart, "
+         "get_dielectric_part, get_dynmat_want (three branches). All array sizes, contents and index tables symbolic; bounds of every subscript included.",
+    note=TRUST + "Index tables (multi, s2p, p2s) are assumed well formed (precondition established by C04/C05). cos/sin are uninterpreted. Not yet under contract in "
+         "this check: the Python fallback _run_py_dynamical_matrix, the commensurate-q lemma, LAPACK eigh, the unit factor.",
+    technique="deductive verification: modular contracts + loop invariants over recursive-sum spec functions, z3",
+    design="DESIGN.md section 5 C02"),
+ "C13": dict(
+    text="Safety contracts of compiled kernels with every callee inlined: each array subscript is de-flattened against the logical shape the Python call site "
+         "passes and proved in range, divisions are proved non-zero, and for each omp parallel for the scalars assigned in the body are proved private/local and every "
+         "write is proved disjoint from every access of another iteration (hence schedule independent). Functional equality with the reference semantics is proved in "
+         "the per-property checks (C02, C10, C11).",
+    note=TRUST + "Kernels covered so far: dym_get_dynamical_matrix_at_q, dym_transform_dynmat_to_fc, phpy_get_thermal_properties (in C10). Others are being added; "
+         "int overflow is outside the model (A-INT). nanobind glue read, not verified.",
+    technique="deductive verification: bounds/race VCs from symbolic execution of the inlined kernels, z3",
+    design="DESIGN.md section 5 C13"),
+ "C17": dict(
+    text="Units part only: units.py and get_default_physical_units are evaluated symbolically over positive unknown fundamental constants for all 16 calculators "
+         "(+None); obligations per calculator: factor == sqrt(declared force-constant unit / AMU)/2pi in THz, nac_factor == e^2/(4 pi eps0) in the declared units, "
+         "distance_to_A and force_to_eVperA match the declared unit strings; Hartree*Bohr == e^2/(4 pi eps0). Exact symbolic identities (sympy).",
+    note=TRUST + "Structure-file writer/reader round trips and FORCE_SETS pairing are NOT decided by this check (text formatting/parsing is out of reach of this technique; "
+         "see DESIGN.md). CODATA values not checked. Finding E11 (dftbp nac_factor) repaired by a fix: commit.",
+    technique="deductive verification: symbolic evaluation of the unit tables + exact algebraic identities",
+    design="DESIGN.md section 5 C17"),
+ "C20": dict(
+    text="The three EOS closures returned by get_eos are extracted by symbolic execution and differentiated mechanically: E(V0)=E0, dE/dV(V0)=0, V0 d2E/dV2(V0)=B0, "
+         "-1 - V0 E3/E2 = B0p (E2, E3 second and third volume derivatives at V0) for Vinet, Birch-Murnaghan and Murnaghan, for all parameter values (exact identities).",
+    note=TRUST + "QHA.run assembly, finite differences and the least-squares fit are not yet covered by this check.",
+    technique="deductive verification: symbolic execution + mechanical differentiation, exact identities",
+    design="DESIGN.md section 5 C20"),
 }
 
 NA = {
